@@ -83,6 +83,8 @@ fn set_of(mask: u32) -> BTreeSet<usize> {
 #[derive(Clone, Copy, Debug, PartialEq, Eq)]
 enum SOp {
     Dispatch,
+    /// a dispatch during which the first signal callback raises this signal again
+    DispatchRaise(usize),
     New(u32),
     Add(u32),
     Remove(u32),
@@ -93,6 +95,10 @@ enum SOp {
 
 struct Data {
     got: Vec<(i32, u32)>, // (signal number, sender pid)
+    /// signal the next callback invocation raises (index into SIGS)
+    raise_in_cb: Option<usize>,
+    /// number of reports that had been made when the callback raised it
+    raised_at: Option<usize>,
 }
 
 fn viol(clause: &str, feats: &[(&str, String)], msg: String) -> Violation {
@@ -130,7 +136,7 @@ fn run_one(quick: bool, verbose: bool) -> Outcome {
     }
     let mut el: EventLoop<'static, Data> = EventLoop::try_new().expect("loop");
     let handle = el.handle();
-    let mut data = Data { got: vec![] };
+    let mut data = Data { got: vec![], raise_in_cb: None, raised_at: None };
     let mut src: Option<(Dispatcher<'static, Signals, Data>, RegistrationToken)> = None;
     // model
     let mut configured: BTreeSet<usize> = BTreeSet::new();
@@ -158,6 +164,9 @@ fn run_one(quick: bool, verbose: bool) -> Outcome {
         let mut menu: Vec<SOp> = vec![];
         if src.is_some() {
             menu.push(SOp::Dispatch);
+            for s in 0..3 {
+                menu.push(SOp::DispatchRaise(s));
+            }
             for &m in &masks {
                 menu.push(SOp::Add(m));
                 menu.push(SOp::Remove(m));
@@ -187,6 +196,10 @@ fn run_one(quick: bool, verbose: bool) -> Outcome {
                     Ok(s) => {
                         let d = Dispatcher::new(s, |ev, _, data: &mut Data| {
                             data.got.push((ev.signal() as i32, ev.pid()));
+                            if let Some(s) = data.raise_in_cb.take() {
+                                data.raised_at = Some(data.got.len());
+                                unsafe { libc::raise(SIGS[s].1) };
+                            }
                         });
                         match handle.register_dispatcher(d.clone()) {
                             Ok(t) => src = Some((d, t)),
@@ -234,13 +247,31 @@ fn run_one(quick: bool, verbose: bool) -> Outcome {
                     handled[s] += 1;
                 }
             }
-            SOp::Dispatch => {
+            SOp::Dispatch | SOp::DispatchRaise(_) => {
                 data.got.clear();
+                data.raised_at = None;
+                data.raise_in_cb = if let SOp::DispatchRaise(s) = op { Some(s) } else { None };
                 if let Err(e) = el.dispatch(Some(Duration::ZERO), &mut data) {
                     call_err = Some(format!("{e}"));
                 }
+                data.raise_in_cb = None;
                 out.clauses.push("signal-delivery");
                 let mut want: Vec<i32> = pending.iter().filter(|p| configured.contains(p)).map(|p| SIGS[*p].1).collect();
+                if let (SOp::DispatchRaise(s), Some(at)) = (op, data.raised_at) {
+                    // the callback raised signal s after `at` reports of this dispatch
+                    out.clauses.push("raise-in-callback");
+                    if configured.contains(&s) {
+                        // a standard signal coalesces with an instance that is still pending, i.e.
+                        // one the source has not read yet; otherwise it is a new pending instance,
+                        // and the source reads until nothing is pending
+                        let already_read = data.got[..at].iter().any(|g| g.0 == SIGS[s].1);
+                        if already_read || !pending.contains(&s) {
+                            want.push(SIGS[s].1);
+                        }
+                    } else {
+                        handled[s] += 1;
+                    }
+                }
                 want.sort();
                 let mut got: Vec<i32> = data.got.iter().map(|g| g.0).collect();
                 got.sort();
